@@ -1,6 +1,6 @@
 (* Props/C14.v — C14: strconv parses and formats numbers consistently with the standard library.
    Statements only; each is closed by [exact] of a lemma proved in Strconv/*Proofs.v. *)
-From Verif Require Import Common.Base Strconv.Model Strconv.IntProofs.
+From Verif Require Import Common.Base Strconv.Model Strconv.IntProofs Strconv.NumProofs.
 
 (* ParseInt, for EVERY byte string: written as sign ++ digits ++ rest (sign = "", "+" or "-";
    rest does not continue the digits; every string has such a decomposition, see
@@ -41,3 +41,23 @@ Theorem decimal_is_canonical : forall n,
                        exists c t, ds = c :: t /\ c <> 48).
 Proof. exact decimal_sound. Qed.
 Print Assumptions decimal_is_canonical.
+
+(* AppendNumber followed by ParseNumber with the same symbols returns the original integer, the
+   decimal count and the full length: for every int64, every dec >= 0, EVERY group size (also <= 0),
+   all distinct symbols that are Unicode scalar values (1-4 UTF-8 bytes) other than digits and '-',
+   every destination prefix b (preserved) and every content of its spare capacity. *)
+Theorem number_roundtrip : forall b spare n dec gsize gs ds,
+  min_i64 <= n <= max_i64 -> 0 <= dec -> sym_ok gs -> sym_ok ds -> gs <> ds ->
+  exists out, append_number b spare n dec gsize gs ds = Ok (b ++ out) /\
+              parse_number out gs ds = Ok (n, dec, len out).
+Proof. exact number_roundtrip_proof. Qed.
+Print Assumptions number_roundtrip.
+
+(* What AppendNumber writes: optional '-', the integer part of |n| / 10^dec ("0" if it is zero)
+   with the group symbol before every gsize-th digit from the right, and for dec > 0 the decimal
+   symbol followed by exactly dec digits; no byte of the computed size is left unwritten. *)
+Theorem append_number_spec : forall b spare num dec gsize gs ds,
+  min_i64 <= num <= max_i64 -> 0 <= dec -> valid_rune gs -> valid_rune ds ->
+  append_number b spare num dec gsize gs ds = Ok (b ++ render num dec gsize gs ds).
+Proof. exact append_number_spec_proof. Qed.
+Print Assumptions append_number_spec.
